@@ -14,6 +14,8 @@ import (
 
 func init() {
 	register(&PropertyCheck{ID: "C05", Level: "other", Run: checkC05, Canaries: []Canary{
+		{Name: "rf7-filter-loop-keeps-going-after-an-error", Rule: "R5.1", Where: "(*Subscribe).UnmarshalBinary#loop1", Edits: []Edit{{"buffer.go", "\tb.i += n\n}\n", "\tb.i += n\n}\n\n// getRest reads everything up to the end of data and returns it as\n// a copy. After a failure the result still has the size of the\n// unread data though nothing is read into it.\nfunc (b *buffer) getRest() []byte {\n\trest := make([]byte, len(b.data)-b.i)\n\tif b.err == nil {\n\t\tb.i += copy(rest, b.data[b.i:])\n\t}\n\treturn rest\n}\n"}, {"suback.go", "\tp.reasonCodes = make([]uint8, len(data)-b.i)\n\n\tfor i, _ := range p.reasonCodes {\n\t\tvar v wuint8\n\t\tb.get(&v)\n\t\tp.reasonCodes[i] = uint8(v)\n\t}\n\treturn b.err", "\t// payload, one reason code per byte\n\tp.reasonCodes = b.getRest()\n\treturn b.Err()"}, {"subscribe.go", "\tfor {\n\t\tvar f TopicFilter\n\t\tb.get(&f.filter)\n\t\tb.get(&f.options)\n\t\tif b.err != nil {\n\t\t\tbreak\n\t\t}\n\t\tp.filters = append(p.filters, f)\n\t\tif b.i == len(data) {\n\t\t\tbreak\n\t\t}\n\t}\n\treturn b.err", "\t// payload, the first filter is read even if there is no more\n\t// data as at least one is required\n\tfor more := true; more; more = !b.atEnd() {\n\t\tvar f TopicFilter\n\t\tb.get(&f.filter)\n\t\tb.get(&f.options)\n\t\tif b.Err() == nil {\n\t\t\tp.filters = append(p.filters, f)\n\t\t}\n\t}\n\treturn b.Err()"}, {"unsuback.go", "\tp.reasonCodes = make([]uint8, len(data)-b.i)\n\n\tfor i, _ := range p.reasonCodes {\n\t\tvar v wuint8\n\t\tb.get(&v)\n\t\tp.reasonCodes[i] = uint8(v)\n\t}\n\treturn b.err", "\t// payload, one reason code per byte\n\tp.reasonCodes = b.getRest()\n\treturn b.Err()"}, {"unsubscribe.go", "\tfor {\n\t\tvar f wstring\n\t\tb.get(&f)\n\t\tif b.err != nil {\n\t\t\tbreak\n\t\t}\n\t\tp.filters = append(p.filters, f)\n\t\tif b.i == len(data) {\n\t\t\tbreak\n\t\t}\n\t}\n\treturn b.err", "\t// payload, the first filter is read even if there is no more\n\t// data as at least one is required\n\tfor more := true; more; more = !b.atEnd() {\n\t\tvar f wstring\n\t\tb.get(&f)\n\t\tif b.Err() != nil {\n\t\t\tbreak\n\t\t}\n\t\tp.filters = append(p.filters, f)\n\t}\n\treturn b.Err()"}}},
+		{Name: "rf7-filter-loop-tests-the-accessor", Silent: true, Edits: []Edit{{"buffer.go", "\tb.i += n\n}\n", "\tb.i += n\n}\n\n// getRest reads everything up to the end of data and returns it as\n// a copy. After a failure the result still has the size of the\n// unread data though nothing is read into it.\nfunc (b *buffer) getRest() []byte {\n\trest := make([]byte, len(b.data)-b.i)\n\tif b.err == nil {\n\t\tb.i += copy(rest, b.data[b.i:])\n\t}\n\treturn rest\n}\n"}, {"suback.go", "\tp.reasonCodes = make([]uint8, len(data)-b.i)\n\n\tfor i, _ := range p.reasonCodes {\n\t\tvar v wuint8\n\t\tb.get(&v)\n\t\tp.reasonCodes[i] = uint8(v)\n\t}\n\treturn b.err", "\t// payload, one reason code per byte\n\tp.reasonCodes = b.getRest()\n\treturn b.Err()"}, {"subscribe.go", "\tfor {\n\t\tvar f TopicFilter\n\t\tb.get(&f.filter)\n\t\tb.get(&f.options)\n\t\tif b.err != nil {\n\t\t\tbreak\n\t\t}\n\t\tp.filters = append(p.filters, f)\n\t\tif b.i == len(data) {\n\t\t\tbreak\n\t\t}\n\t}\n\treturn b.err", "\t// payload, the first filter is read even if there is no more\n\t// data as at least one is required\n\tfor more := true; more; more = !b.atEnd() {\n\t\tvar f TopicFilter\n\t\tb.get(&f.filter)\n\t\tb.get(&f.options)\n\t\tif b.Err() != nil {\n\t\t\tbreak\n\t\t}\n\t\tp.filters = append(p.filters, f)\n\t}\n\treturn b.Err()"}, {"unsuback.go", "\tp.reasonCodes = make([]uint8, len(data)-b.i)\n\n\tfor i, _ := range p.reasonCodes {\n\t\tvar v wuint8\n\t\tb.get(&v)\n\t\tp.reasonCodes[i] = uint8(v)\n\t}\n\treturn b.err", "\t// payload, one reason code per byte\n\tp.reasonCodes = b.getRest()\n\treturn b.Err()"}, {"unsubscribe.go", "\tfor {\n\t\tvar f wstring\n\t\tb.get(&f)\n\t\tif b.err != nil {\n\t\t\tbreak\n\t\t}\n\t\tp.filters = append(p.filters, f)\n\t\tif b.i == len(data) {\n\t\t\tbreak\n\t\t}\n\t}\n\treturn b.err", "\t// payload, the first filter is read even if there is no more\n\t// data as at least one is required\n\tfor more := true; more; more = !b.atEnd() {\n\t\tvar f wstring\n\t\tb.get(&f)\n\t\tif b.Err() != nil {\n\t\t\tbreak\n\t\t}\n\t\tp.filters = append(p.filters, f)\n\t}\n\treturn b.Err()"}}},
 		{Name: "filter-helper-reads-only-when-data-is-left", Rule: "R5.1", Where: "(*Subscribe).UnmarshalBinary", Edits: []Edit{{"subscribe.go", "\tfor {\n\t\tvar f TopicFilter\n\t\tb.get(&f.filter)\n\t\tb.get(&f.options)\n\t\tif b.err != nil {\n\t\t\tbreak\n\t\t}\n\t\tp.filters = append(p.filters, f)\n\t\tif b.i == len(data) {\n\t\t\tbreak\n\t\t}\n\t}\n\treturn b.err", "\t// the payload holds at least one topic filter\n\tfor more := true; more; more = !b.atEnd() {\n\t\tf, err := b.getTopicFilter()\n\t\tif err != nil {\n\t\t\treturn err\n\t\t}\n\t\tp.filters = append(p.filters, f)\n\t}\n\treturn nil\n}\n\n// getTopicFilter reads one filter and its subscription options.\nfunc (b *buffer) getTopicFilter() (f TopicFilter, err error) {\n\tif !b.atEnd() {\n\t\tb.get(&f.filter)\n\t\tb.get(&f.options)\n\t}\n\treturn f, b.err"}, {"unsubscribe.go", "\tfor {\n\t\tvar f wstring\n\t\tb.get(&f)\n\t\tif b.err != nil {\n\t\t\tbreak\n\t\t}\n\t\tp.filters = append(p.filters, f)\n\t\tif b.i == len(data) {\n\t\t\tbreak\n\t\t}\n\t}\n\treturn b.err", "\t// the payload holds at least one topic filter\n\tfor more := true; more; more = !b.atEnd() {\n\t\tvar f wstring\n\t\tif b.get(&f); b.err != nil {\n\t\t\treturn b.err\n\t\t}\n\t\tp.filters = append(p.filters, f)\n\t}\n\treturn nil"}}},
 		{Name: "property-loop-builds-a-string-by-concatenation", Rule: "R5.2", Where: "(*buffer).getAny", Edits: []Edit{{"buffer.go", "\tfor b.i < end {\n\t\tb.get(&id)\n\t\t// first failure stops the parsing\n\t\tif b.err != nil {\n\t\t\treturn\n\t\t}\n\t\tfield, hasField := fields[id]\n\t\tif hasField {\n\t\t\tb.get(field())\n\t\t\tcontinue\n\t\t}\n\t\tswitch id {\n\t\tcase UserProperty:\n\t\t\tvar p UserProp\n\t\t\tb.get(&p)\n\t\t\taddProp(p)\n\n\t\tcase SubscriptionID:\n\t\t\tvar sub vbint\n\t\t\tb.get(&sub)\n\t\t\tif b.addSubscriptionID != nil {\n\t\t\t\tb.addSubscriptionID(uint32(sub))\n\t\t\t}\n\n\t\tdefault:\n\t\t\tb.err = fmt.Errorf(\"unknown property id 0x%02x\", id)", "\tvar seen string // identifiers read so far, for the error message\n\tfor b.i < end {\n\t\tb.get(&id)\n\t\t// first failure stops the parsing\n\t\tif b.err != nil {\n\t\t\treturn\n\t\t}\n\t\tseen += fmt.Sprintf(\" %02x\", byte(id))\n\t\tfield, hasField := fields[id]\n\t\tif hasField {\n\t\t\tb.get(field())\n\t\t\tcontinue\n\t\t}\n\t\tswitch id {\n\t\tcase UserProperty:\n\t\t\tvar p UserProp\n\t\t\tb.get(&p)\n\t\t\taddProp(p)\n\n\t\tcase SubscriptionID:\n\t\t\tvar sub vbint\n\t\t\tb.get(&sub)\n\t\t\tif b.addSubscriptionID != nil {\n\t\t\t\tb.addSubscriptionID(uint32(sub))\n\t\t\t}\n\n\t\tdefault:\n\t\t\tb.err = fmt.Errorf(\"unknown property id 0x%02x, read so far:%s\", id, seen)"}}},
 		{Name: "reason-code-count-taken-from-the-wire", Rule: "R5.1", Where: "(*SubAck).UnmarshalBinary", Edits: []Edit{{"suback.go", "\tp.reasonCodes = make([]uint8, len(data)-b.i)\n\n\tfor i, _ := range p.reasonCodes {\n\t\tvar v wuint8\n\t\tb.get(&v)\n\t\tp.reasonCodes[i] = uint8(v)\n\t}", "\tvar count wuint16\n\tb.get(&count)\n\tfor k := 0; k < int(count); k++ {\n\t\tp.reasonCodes = append(p.reasonCodes, 0)\n\t}"}}},
